@@ -1,6 +1,8 @@
 package main
 
 import (
+	"strings"
+	"sort"
 	"fmt"
 	"go/ast"
 	"go/token"
@@ -543,6 +545,28 @@ func (r *UnitRun) boxFn(src, dst string) string {
 		ax += fmt.Sprintf("\n(assert (forall ((x %s)) (! (not (= (%s x) nil_%s)) :pattern ((%s x)))))", src, fn, dst, fn)
 	}
 	r.needNamed("boxax:"+fn, ax)
+	// dynamic types are exclusive: an interface value holding a nested float64 slice holds nothing else (stated only for
+	// pairs that involve such a typed slice, the kinds a type switch over TensorOf's input distinguishes)
+	typed := func(s string) bool { return strings.HasSuffix(s, "Sl_Real") }
+	var kinds []string
+	for k := range r.needs {
+		if strings.HasPrefix(k, "boxkind:"+dst+":") {
+			kinds = append(kinds, strings.TrimPrefix(k, "boxkind:"+dst+":"))
+		}
+	}
+	sort.Strings(kinds)
+	for _, other := range kinds {
+		ofn := "box_" + sanitize(other) + "_" + sanitize(dst)
+		if other == src || !(typed(src) || typed(other)) {
+			continue
+		}
+		a, b := fn, ofn
+		if b < a {
+			a, b = b, a
+		}
+		r.needNamed("boxdisj:"+a+":"+b, fmt.Sprintf("(assert (forall ((d %s)) (! (not (and (is%s d) (is%s d))) :pattern ((is%s d)) :pattern ((is%s d)))))", dst, a, b, a, b))
+	}
+	r.needs["boxkind:"+dst+":"+src] = true
 	return fn
 }
 
